@@ -66,11 +66,13 @@ def check_copies(ctx, u, case, sig):
     copies.append(("URL(SplitResult)", guarded(lambda: type(u)(u.__getstate__()[0], encoded=True))))
     # observe copies BEFORE the original, so the original's lazily filled cache cannot influence them
     observed = []
-    for name, c in copies:
+    for j, (name, c) in enumerate(copies):
         if is_exc(c):
             ctx.fail("copy_raises", dict(case, copy=name), f"{name}: {c!r}")
             continue
-        observed.append((name, c, obs(c)))
+        # every copy starts its lazy fills from a DIFFERENT accessor (a rotation of the shuffled order)
+        k = (j * 5 + 1) % len(order)
+        observed.append((name, c, obs(c, order=order[k:] + order[:k])))
     o = obs(u, order=order)
     ctx.ev(sig + (len(prefilled),) if sig else None)
     ctx.count("urls_checked")
@@ -102,6 +104,8 @@ SHAPES = [
     "http://example.com:80", "http://example.com:080", "http://example.com:0", "http://example.com:", "https://EXAMPLE.com:443/A?B#C", "//example.com", "//u:p@example.com:81/p",
     "foo://:80/", "foo://u@:80/", "foo://u:p@/x", "mailto://u@:0", "//:", "//@", "//:@", "//@:?#", "foo://", "foo:///x", "http://[::1]", "http://[::1]:80/", "http://u:p@[fe80::1%eth0]:81/",
     "http://[2001:DB8:0:0:0:0:0:1]/", "svn://u@[vF.a:b]/P", "http://[v1.x]:81/", "http://é.com/é?é=é#é", "http://bücher.example:8080", "http://A_b.é/", "http://127.0.0.1:00080/",
+    # a bracket INSIDE a bracketed host, a doubled opening bracket, a bracket in the userinfo next to a bracketed host
+    "foo://[v1.a[b]/", "foo://[v1.[a]/", "http://[fe80::1%eth[]/", "http://[[::1]:8080/p", "http://u:p@[v1.x:y[]:81/", "foo://[a@[::1]:80/", "foo://[::1]@example.com:80/", "foo://[v1.a]b]/",
     "http://XN--MNCHEN-3YA.DE/p", "https://www.Xn--mnchen-3ya.de:443", "http://u:p@XN--80AAF8A3A.XN--J1AMH:8080/", "http://XN--ZZZ/", "http://xn--mnchen-3ya.de/", "//EXAMPLE.COM.", "http://[FE80::A%25ETH1]/",
     "", "/", "a", "a/b?c#d", "?q", "#f", "/a/../b", "http://h/a/../b/./c", "http://h/%2e%2E/x", "mailto:user@example.com", "foo:a:b", "http:x", "http:/x", "http://h?q", "http://h#f",
     "http://h/?a=1&a=2&b", "http://h/p?a=%FF&b=%E2%82", "http://h/a%2Fb/c%20d+e", "http://h/x.tar.gz", "http://h/.hidden", "http://h/a.", "http://h//", "http://h/a//b",
